@@ -3,7 +3,8 @@
 cd /verif
 for d in seeded/C*; do
   id=$(basename $d)
-  n=$(tools/try_seed.sh /verif/$d/patch.diff $id 2>/dev/null | grep "VIOLATION property=$id" | sort -u)
+  p=${id%b}
+  n=$(tools/try_seed.sh /verif/$d/patch.diff $p 2>/dev/null | grep "VIOLATION property=$p" | sort -u)
   c=$(echo "$n" | grep -c "replay=\S*$")
   b=$(echo "$n" | grep -c "no-failing-input-found")
   echo "$id concrete=$c broken-only=$b"
